@@ -23,6 +23,12 @@ CHECKS.update({
          "highlighter called on a clone of a default Shell with default builtins; debug assertions on", "DESIGN.md §3 C19"),
 })
 
+CHECKS.update({
+ "C07": ("grammar-based property testing of expression trees against a reference evaluator (in process, bash as arbiter) + differential testing of the shell contexts",
+         "60k (quick) / 2M (thorough) generated expression trees, each rendered with minimal and with redundant parentheses, evaluated by brush's parser+evaluator in process and compared (value and all variables afterwards) with the harness's wrapping-i64 evaluator; mismatches and a 1/61 sample arbitrated by bash. The same trees through $(( )), (( )), let, substring offsets, subscripts, for((;;)) and declare -i vs bash. Exploration.",
+         "reference evaluator believed only where bash 5.2.15 agrees; x86-64 shift semantics; variables' contents limited to literals, names and `a op b`", "DESIGN.md §3 C07"),
+})
+
 NOT_YET = {}
 
 def hooks():
